@@ -136,7 +136,7 @@ def specStep (sh : Shadow) (o : Proto.Op) : Except String Shadow := do
         let bad := blk.bad.filter (· != i)
         let bad := if byte != guardByte i then i :: bad else bad
         pure { sh with live := sh.live.map (fun x => if x.addr == blk.addr then { x with bad := bad } else x) }
-    | _, _ => throw "write to a block that is not outstanding"
+    | _, _ => pure sh        -- not an outstanding block: the client writing into its own untracked memory is no subject here
   | ["gfree", addr, _, _] => release sh sh.curMal (nat addr) obs true
   | [g, size, _, _] =>
     if g != "gnew" && g != "gnewarray" && g != "gmalloc" then throw "bad-op"
